@@ -36,14 +36,38 @@ Two earlier rounds already produced the obvious and the moderately subtle bugs f
 Reply with a short summary per bug: directory, one-line description, what is needed to manifest, and the exact commands you ran to confirm (suite green with change; demo fails with change, passes without). Be honest if you could not confirm something.
 '''
 GUIDANCE4 = """Three earlier rounds already produced the obvious, the moderately subtle and the "classic regression" bugs for this property (incomplete cache keys, TrimRight-for-TrimSuffix, map iteration, string-prefix-for-path-prefix, missing O_TRUNC, shadowed identifiers, settings read from the wrong level). Do not repeat those mechanisms. Aim for changes that look like *semantics-preserving refactors* and would pass review: extracting a helper that evaluates its arguments at a different time; value receiver vs pointer receiver, or a struct copied where it used to be shared (or the reverse); deep copy replaced by shallow copy of a nested map or slice; re-ordering two initialisation steps; a default filled in earlier or later than before (nil vs false for optional booleans, empty vs unset strings); path normalisation (filepath.Clean / Abs / EvalSymlinks / ToSlash) applied on one side of a comparison only; case-insensitive comparison where it was exact; a compiled, anchored or multi-line regexp replacing a plain one; errors.Is vs == ; template whitespace trimming ({{- -}}) moved; a loop that now stops at the first match or the first error; a slice re-sliced instead of copied; a defer moved into or out of a loop; a `continue` that used to be a `return`; a condition simplified with De Morgan's law incorrectly for one combination. The source files most relevant to this property are: {anchors}. Spread your two bugs over different files or mechanisms where you can. Each bug must leave the build and the existing test suite green, and must need a specific input, configuration or sequence to show."""
+MENU = ["value vs pointer receiver, or a struct copied where it used to be shared (or the reverse)", "slice aliasing: append or re-slice on a shared backing array, a result slice handed out without copy",
+        "dependence on map iteration order", "off-by-one at a boundary (empty, single element, last element, exactly-at-limit, index vs length)",
+        "error handling: an error swallowed, shadowed by :=, checked after the value is used, or turned into a warning on one path", "string handling: case folding, rune vs byte, Unicode, prefix/suffix/cutset confusion",
+        "path handling: Clean / Abs / Rel / ToSlash / EvalSymlinks / trailing separator / relative-to-what", "regular expressions: anchoring, flags, leftmost-first vs longest, compile-once caching",
+        "locking and concurrency in the generated code or the tool: lock scope, lock order, RLock for a write, sync.Once, captured loop variable", "caching / memoisation / pooling with an incomplete key or a missing reset",
+        "defaulting: nil vs zero value, omitted vs explicitly empty, optional booleans", "order of initialisation or merge steps (something read before it is filled in, or merged twice)",
+        "text/template details: whitespace trimming, a branch taken for one more or one fewer case, variable scope inside range/with", "go/types and go/packages API details (Underlying vs Unalias, Origin, TypeArgs, Obj().Pkg() == nil, Syntax vs GoFiles vs CompiledGoFiles, load modes)",
+        "loop control: break / continue / return, first match vs all matches, early exit on the first error vs collecting", "file I/O: open flags, modes, truncation, create-vs-exists checks, temp files, close/sync ordering",
+        "precedence between defaults, environment, config file and flags, or between configuration levels", "YAML / JSON encode-decode round trips: omitempty, inline, pointer vs value fields, key quoting, anchors",
+        "validation short-circuits: a check skipped for an 'obviously fine' case, validated copy differs from used copy", "the diagnostic path: an exit status, log level or message decided by a condition that is subtly different from the condition that caused it"]
+GUIDANCE5 = """Earlier rounds have used up the attractive, obvious bugs for this property, so this round assigns the mechanism families. You have been assigned these four families; craft your two bugs from the TWO that fit this property and this code base best (one bug per family), and say in README.md which family each belongs to:
+
+{assigned}
+
+Within a family, avoid the first idea that comes to mind (it has probably been tried): look for a place in the code where the family applies that is at least two call levels away from the obvious one, or that only matters for an unusual but legal input. The change must read like a refactor, clean-up or small optimisation that a reviewer would wave through, must leave the build and the existing suite green, and must need a specific input, configuration, sequence or interleaving to show. The source files most relevant to this property are: {anchors} (the bug itself may live elsewhere, e.g. in a helper those files call)."""
 suffix = sys.argv[1]
+if suffix.startswith("5"):
+    a = T.index("## Additional guidance for this round")
+    b = T.index("## Environment facts")
+    T = T[:a] + "## Additional guidance for this round\n\n{guidance5}\n\n" + T[b:]
 if suffix.startswith("4"):
     a = T.index("## Additional guidance for this round")
     b = T.index("## Environment facts")
     T = T[:a] + "## Additional guidance for this round\n\n" + GUIDANCE4.replace("{{- -}}", "{{{{- -}}}}") + "\n\n" + T[b:]
 for pid in (sys.argv[2:] or sorted(props)):
     p = props[pid]
-    open('/tmp/mut%s_prompt_%s.txt' % (suffix, pid), 'w').write(T.format(
+    extra = {}
+    if suffix.startswith("5"):
+        k = int(pid[1:])
+        fam = [(k * 7) % 20, (k * 7 + 5) % 20, (k * 7 + 11) % 20, (k * 7 + 16) % 20]
+        extra["guidance5"] = GUIDANCE5.format(assigned="\n".join("  - " + MENU[f] for f in fam), anchors=', '.join(p['anchors']['files']))
+    open('/tmp/mut%s_prompt_%s.txt' % (suffix, pid), 'w').write(T.format(**extra, 
         n=2, wt='/tmp/wt%s/%s' % (suffix, pid), out='/tmp/mut%s' % suffix, pid=pid, title=p['title'], statement=p['statement'],
         quant=p['quantifier']['text'], anchors=', '.join(p['anchors']['files'])))
 print('ok')
